@@ -1,6 +1,6 @@
 /* @harness c17.nodelim
  * @props C17
- * @tier quick
+ * @tier thorough
  * @functions determine_blockSize blockSize_noDelimiter ZSTD_copySequencesToSeqStoreNoBlockDelim ZSTD_validateSequence ZSTD_finalizeOffBase ZSTD_updateRep ZSTD_storeSeq ZSTD_storeLastLiterals ZSTD_safecopyLiterals ZSTD_wildcopy ZSTD_resetSeqStore
  * @bounds ONE block of delimiter-free transcription from an ARBITRARY resumption point (sequence index 0..NSEQ, position inside that sequence satisfying the resumption invariant I_r, which is re-proved as post-condition: inductive step, so block histories of any length): array of NSEQ (2 quick, 3 thorough) ZSTD_Sequence with arbitrary offset / rep fields and any lengths that do not overrun the source; source remaining 1..16 bytes (tail-aligned); the rest of the list never overruns the source (it may stop short: trailing literals); block size limit 2*minMatch..MAXBLK (10 quick, 16 thorough; production limits are >= 1 KiB; small values make match splitting reachable), minMatch 3..MAXMM (4 quick, 7 thorough); bytes decoded before the block: any value < 2^33; windowLog 10..31; dictionary size any 32-bit value; prior repcode history any non-zero values
  * @bounds instance val: validation ON, arbitrary arrays - decided: memory safety of the transcription, seqStore capacity respected, error or consistent accounting (stored literals + matches + last literals = block size minus the returned adjustment), every stored match at least 3 long with the offset rule of the documented validation at the START of the (possibly split) match, resumption point stays inside the array
